@@ -401,7 +401,7 @@ func (i *introspectionVisitor) TypeRef(typeRef int) TypeRef {
 
 func (i *introspectionVisitor) deprecationReason(directiveRef int) (reason *string) {
 	argValue, exists := i.definition.DirectiveArgumentValueByName(directiveRef, []byte(DeprecationReasonArgName))
-	if exists {
+	if exists && argValue.Kind != ast.ValueKindNull {
 		reasonContent := i.definition.ValueContentString(argValue)
 		return &reasonContent
 	}
